@@ -661,6 +661,37 @@ func (w *world) forge(b *base, variant string) ([]forged, error) {
 			return nil, errNA
 		}
 		return out, nil
+	case "hdr-dup-alg-mismatch-signed":
+		// the header object names the algorithm twice: the one that fits the key and the one the (genuine) signature is made
+		// with; whichever member a parser keeps, the algorithm really used does not fit the key
+		if group(b.fam) != "ec" {
+			return nil, errNA
+		}
+		out := []forged{}
+		for _, p := range siblingAlgs(b) {
+			rest := txforge.Header(withHdr(func(h map[string]any) { delete(h, "alg") }))
+			for _, order := range [][2]string{{b.alg, p[0]}, {p[0], b.alg}} {
+				raw := fmt.Sprintf(`{"alg":%q,"alg":%q,%s`, order[0], order[1], rest[1:])
+				hs := txforge.B64([]byte(raw))
+				out = append(out, forged{name: "alg-" + order[0] + "+" + order[1] + "-sig-" + p[0] + "-by-legit-" + b.fam,
+					jws: b.assemble(hs, b.payload, b.legit.SignAlg(p[0], b.signingInput(hs, b.payload)))})
+			}
+		}
+		return out, nil
+	case "legit-alg-sibling-fit":
+		// genuine signature by the legitimate RSA key with another algorithm of the family that fits the key
+		if group(b.fam) != "rsa" {
+			return nil, errNA
+		}
+		out := []forged{}
+		for _, a := range []string{"PS256", "PS384", "PS512"} {
+			if a == b.alg || (b.consumer == "apitoken" && a == "PS512") {
+				continue
+			}
+			h := withHdr(func(h map[string]any) { h["alg"] = a })
+			out = append(out, forged{name: a + "-by-legit-rsa", jws: b.signed(h, b.payload, b.legit, a)})
+		}
+		return out, nil
 	case "sigs-0":
 		return []forged{{name: "general-no-signature", jws: txforge.GeneralEmpty(valid)}}, nil
 	case "sigs-2-legit-first", "sigs-2-attacker-first":
